@@ -211,6 +211,32 @@ Theorem C18_y2l_l2y_spectrum : forall v,
 Proof. exact y2l_l2y_spectrum. Qed.
 Print Assumptions C18_y2l_l2y_spectrum.
 
+(* services: route objects with their index first, frequency slots non-empty (what the loaders and the YANG
+   schema expect); is_services is stated on the document after none_to_empty, where the converters run *)
+Theorem C18_y2l_l2y_services : forall o,
+  is_services (map (fun kv => (fst kv, none_to_empty (snd kv))) o) = true ->
+  legacy_nulls_ok (JObj o) = true -> doc_ok (prec SERV_NMSP) (JObj o) = true ->
+  exists y, legacy_to_yang (JObj o) = Ok y /\ yang_to_legacy y = Ok (JObj o).
+Proof. exact y2l_l2y_services. Qed.
+Print Assumptions C18_y2l_l2y_services.
+
+Definition ex_service : obj :=
+  [("path-request"%string, JArr [JObj [
+      ("request-id"%string, JStr "0"); ("source"%string, JStr "trx A"); ("destination"%string, JStr "trx B");
+      ("bidirectional"%string, JBool false);
+      ("path-constraints"%string, JObj [("te-bandwidth"%string, JObj [
+          ("technology"%string, JStr "flexi-grid"); ("trx_type"%string, JStr "Voyager"); ("trx_mode"%string, JNull);
+          ("effective-freq-slot"%string, JArr [JObj [("N"%string, JNull); ("M"%string, JNum 8 0)]]);
+          ("spacing"%string, JNum 500000000000 1); ("max-nb-of-channel"%string, JNull);
+          ("output-power"%string, JNum 125893 8); ("path_bandwidth"%string, JNum 1000000000000 1)])]);
+      ("explicit-route-objects"%string, JObj [("route-object-include-exclude"%string, JArr [
+          JObj [("index"%string, JNum 0 0); ("explicit-route-usage"%string, JStr "route-include-ero");
+                ("num-unnum-hop"%string, JObj [("node-id"%string, JStr "roadm C"); ("hop-type"%string, JStr "LOOSE")])]])])]])].
+Example ex_service_ok :
+  is_services (map (fun kv => (fst kv, none_to_empty (snd kv))) ex_service) = true /\
+  legacy_nulls_ok (JObj ex_service) = true /\ doc_ok (prec SERV_NMSP) (JObj ex_service) = true.
+Proof. vm_compute. repeat split. Qed.
+
 (* l2y (y2l (l2y d)) = l2y d and the dual, wherever the round trip holds *)
 Theorem C18_l2y_idempotent : forall d,
   (exists y, legacy_to_yang d = Ok y /\ yang_to_legacy y = Ok d) ->
